@@ -20,6 +20,8 @@ ASSUMPTIONS = [
 ]
 TRIVIAL_TAGS = []
 STALL = 20.0
+# the loader works on files of at most a few KB: any request for more than ~1 GB of address space is an unbounded allocation
+core.RLIMIT_AS_BYTES[0] = 1 << 30
 
 PROGRAMS = [
     "x := 1 + 2",
@@ -141,6 +143,34 @@ def generate(tier, rng):
             g[pos:pos + w] = v.to_bytes(w, "little")[: max(0, min(w, len(g) - pos))]
             b = with_crc(bytes(g))
             yield case(sx(["any", q(b.hex())]), b.hex(), dict(stream="struct-body"))
+    # field-level mutations of the instruction stream (opcode, function id, registers, VarArg count) with recomputed CRC
+    fieldvals = [0, 1, 2, 5, 255, 256, 65535, 2 ** 30, 2 ** 30 + 1, 2 ** 31, 2 ** 31 + 1, 3 * 2 ** 30, 2 ** 32 - 1, 2 ** 32 - 4]
+    for k, (src, f) in enumerate(allfiles):
+        payload = f[:-4]
+        ioff = int.from_bytes(payload[93:101], "little"); ilen = int.from_bytes(payload[101:109], "little")
+        pos = ioff; fields = []
+        widths = {0x01: [4, 4], 0x10: [8, 4], 0x20: [8, 4, 4], 0x30: [8, 4, 4, 4], 0x40: [8, 4, 4, 4, 4], 0x50: [8, 4, 4, 4, 4, 4], 0xFF: [4]}
+        while pos < ioff + ilen and pos < len(payload):
+            op = payload[pos]; fields.append((pos, 1, "opcode")); pos += 1
+            if op == 0x60:
+                fields += [(pos, 8, "fxn"), (pos + 8, 4, "dst"), (pos + 12, 4, "argc")]
+                n = int.from_bytes(payload[pos + 12:pos + 16], "little"); pos += 16
+                for a in range(n):
+                    fields.append((pos, 4, "arg")); pos += 4
+            elif op in widths:
+                for w in widths[op]:
+                    fields.append((pos, w, "field")); pos += w
+            else:
+                break
+        argc = [x for x in fields if x[2] == "argc"]
+        others = [x for x in fields if x[2] != "argc"]
+        chosen = argc + (rng.sample(others, min(len(others), 6 if quick else 60)))
+        for (o, w, name) in chosen:
+            vals = fieldvals if name == "argc" else rng.sample(fieldvals, 3 if quick else 8)
+            for v in vals:
+                g = bytearray(payload); g[o:o + w] = (v & ((1 << (8 * w)) - 1)).to_bytes(w, "little")
+                b = with_crc(bytes(g))
+                yield case(sx(["any", q(b.hex())]), b.hex(), dict(stream="struct-instr", field=name))
     # crc32fast vs the model
     for t in range(100 if quick else 2000):
         n = rng.choice([0, 1, 2, 3, 4, 5, 7, 8, 9, 15, 16, 17, 31, 32, 33, 63, 64, 65]) if rng.random() < 0.5 else rng.randint(0, 400)
